@@ -26,8 +26,10 @@ void h_coletree(void) {
 #if SYM
   __CPROVER_assume(in_nr == in_nc);
 #endif
-#if FIXED      /* quick tier: full-size matrices only (smaller ones are the thorough tier) */
+#if FIXED == 1  /* quick tier: full-size matrices only (smaller ones are the thorough tier) */
   __CPROVER_assume(in_nr == CAP && in_nc == CAP);
+#elif FIXED == 2  /* quick tier, tall: more rows than columns (rows nc..nr-1 have no column of their own) */
+  __CPROVER_assume(in_nr == CAP && in_nc == CAP - 1);
 #endif
   for (c = 0; c < CAP; c++) if (c < in_nc) __CPROVER_assume(0 <= in_colbeg[c] && in_colbeg[c] <= in_colend[c] && in_colend[c] <= NZ && (in_nr > 0 || in_colbeg[c] == in_colend[c]));
   for (p = 0; p < NZ; p++) __CPROVER_assume(in_nr == 0 || (0 <= in_arow[p] && in_arow[p] < in_nr));
@@ -63,10 +65,15 @@ void h_coletree(void) {
     __CPROVER_assert(g_parent[j] == ref, "parent[j] is the first off-diagonal row of column j of the symbolic Cholesky factor");
   }
   __CPROVER_assert(0, "canary: etree routine returns");
+#if FIXED == 2
+  if (g_parent[0] == 1) __CPROVER_assert(0, "canary: tall matrix, columns connected");
+  if (g_parent[0] == in_nc) __CPROVER_assert(0, "canary: tall matrix, columns independent");
+#else
   if (in_nc == CAP && in_nr == CAP) __CPROVER_assert(0, "canary: full size reachable");
 #if !FIXED
   if (in_nc == 0) __CPROVER_assert(0, "canary: no columns");
 #endif
   if (in_nc == CAP && g_parent[0] == CAP - 1 && g_parent[1] == CAP - 1) __CPROVER_assert(0, "canary: branching tree");
   if (in_nc == CAP && g_parent[0] == CAP && g_parent[1] == CAP) __CPROVER_assert(0, "canary: forest with several roots");
+#endif
 }
